@@ -43,12 +43,12 @@ B("c01-nonblank-decoration", "C01", SM, 'f"\\n     {self.meter}"', 'f"\\n  -  {s
 B("c01-drop-strip", ["C01", "C03"], SM, "self[property] = value.strip()", "self[property] = value", "strip")
 B("c01-extradata-offbyone", "C01", SM, "self.extradata = list(values[len(SM_CHART_PROPERTIES) :])", "self.extradata = list(values[len(SM_CHART_PROPERTIES) + 1 :])", "extradata")
 B("c01-extradata-dropped", "C01", SM, "                *(self.extradata or []),\n", "", "extradata")
-B("c01-split-maxsplit", ["C01", "C04"], BASE, 'param = MSDParameter((key, *value.split(":")))', 'param = MSDParameter((key, *value.split(":", 1)))', "multi-value components")
-B("c01-multi-table-writer-only", ["C01"], BASE, "            elif key in BaseSimfile.MULTI_VALUE_PROPERTIES:\n                param = MSDParameter((key, *value.split", '            elif key in ("ATTACKS",):\n                param = MSDParameter((key, *value.split', "MULTI_VALUE")
+B("c01-split-maxsplit", ["C01", "C04"], BASE, 'param = MSDParameter((key, *value.split(":")))', 'param = MSDParameter((key, *value.split(":", 1)))', "every item is written")
+B("c01-multi-table-writer-only", ["C01"], BASE, "            elif key in BaseSimfile.MULTI_VALUE_PROPERTIES:\n                param = MSDParameter((key, *value.split", '            elif key in ("ATTACKS",):\n                param = MSDParameter((key, *value.split', "every item is written")
 B("c01-join-first-two", ["C01", "C03"], SM, 'self[key] = ":".join(param.components[1:])', 'self[key] = ":".join(param.components[1:3])', "components")
 B("c01-join-sep", ["C01", "C03"], SM, 'self[key] = ":".join(param.components[1:])', 'self[key] = ";".join(param.components[1:])', "each parameter")
-B("c01-none-guard-removed", ["C01", "C04"], BASE, "            if value is None:\n                param = MSDParameter((key,))\n            elif key in", "            if key in", "None")
-B("c01-skip-empty-values", ["C01", "C04"], BASE, "        for (key, value) in self.items():\n            if value is None:", "        for (key, value) in self.items():\n            if value == \"\":\n                continue\n            if value is None:", "item loop")
+B("c01-none-guard-removed", ["C01", "C04"], BASE, "            if value is None:\n                param = MSDParameter((key,))\n            elif key in", "            if key in", "value")
+B("c01-skip-empty-values", ["C01", "C04"], BASE, "        for (key, value) in self.items():\n            if value is None:", "        for (key, value) in self.items():\n            if value == \"\":\n                continue\n            if value is None:", "every item is written")
 B("c01-no-blank-line", "C01", BASE, '        file.write("\\n")\n        self.charts.serialize(file)', "        self.charts.serialize(file)", "blank line")
 B("c01-charts-reversed", "C01", BASE, "        for chart in self:\n            chart.serialize(file)", "        for chart in reversed(self):\n            chart.serialize(file)", "chart")
 B("c01-raw-text-written", ["C01", "C04"], BASE, '            file.write(f"{param}\\n")', '            file.write(f"{param} \\\\\\n")', "parameters + whitespace")
@@ -59,9 +59,9 @@ B("c01-chart-from-all-components", ["C01", "C03"], SM, "self.charts.append(SMCha
 # --------------------------------------------------------------------------- C02
 B("c02-identity-back", "C02", SSC, "            if key == notes_key:\n                continue", "            if value is self.notes:\n                continue", "identity")
 B("c02-identity-equality", "C02", SSC, "            if key == notes_key:\n                continue", "            if value == self.notes:\n                continue", "recognised by its key")
-B("c02-notes-alias-wrong", "C02", SSC, 'if "NOTES" not in self and "NOTES2" in self:', 'if "NOTES2" in self:', "alias chosen")
+B("c02-notes-alias-wrong", "C02", SSC, 'if "NOTES" not in self and "NOTES2" in self:', 'if "NOTES2" in self:', "notes item")
 B("c02-notedata-after-loop", "C02", SSC, "        file.write(f\"{MSDParameter(('NOTEDATA', ''))}\\n\")\n        notes_key = \"NOTES\"", "        notes_key = \"NOTES\"", "NOTEDATA", more=[(SSC, '        file.write(f"{notes_param}\\n\\n")', '        file.write(f"{notes_param}\\n\\n")\n        file.write(f"{MSDParameter((\'NOTEDATA\', \'\'))}\\n")')])
-B("c02-notes-written-only-if-nonempty", "C02", SSC, '        file.write(f"{notes_param}\\n\\n")', '        if notes:\n            file.write(f"{notes_param}\\n\\n")', "written last")
+B("c02-notes-written-only-if-nonempty", "C02", SSC, '        file.write(f"{notes_param}\\n\\n")', '        if notes:\n            file.write(f"{notes_param}\\n\\n")', "notes item last")
 B("c02-chart-split-removed", ["C02", "C04"], SSC, "            elif key in BaseSimfile.MULTI_VALUE_PROPERTIES:\n                param = MSDParameter((key, *value.split(\":\")))\n            else:\n                param = MSDParameter((key, value))\n            file.write", "            else:\n                param = MSDParameter((key, value))\n            file.write", None)
 B("c02-parse-leak-to-simfile", ["C02", "C03"], SSC, "            elif partial_chart is not None:\n                partial_chart[key] = value", "            elif partial_chart is not None and key != \"CREDIT\":\n                partial_chart[key] = value", "chart")
 B("c02-last-chart-not-appended", ["C02", "C03"], SSC, "        if partial_chart is not None:\n            self.charts.append(partial_chart)\n\n    @property", "    @property", "last open chart")
